@@ -220,11 +220,11 @@ def flush_contract(world, b):
 
 def sink_clause(world, eng, Rv, d):
     prog = world.lib
-    fi_file = prog.field_index(WINDOW, "file")
+    fi_file = world.window_layout().get("file")
     if fi_file is None:
         d.fail("anchor-lost Window.file", "Window has no field `file`")
         return
-    fty = prog.adts[WINDOW]["variants"][0]["fields"][fi_file]["ty"]
+    fty = leaf_type(prog, WINDOW, fi_file)
     d.ob(prog.types[fty]["s"] == FILE_TY, "window-file-type", "the Window's file is %s, not an unbuffered std::fs::File "
          "(a userspace buffer between write_all and the kernel breaks 'ACK implies stored'; a buffered reader breaks short-read = EOF)" % prog.types[fty]["s"],
          sample={"Window.file type": prog.types[fty]["s"]})
